@@ -25,6 +25,8 @@ from typing import Any
 
 from src.analyzers.ast_utils import build_parent_map
 
+from .context_analyzer import is_constant_definition
+
 
 class PythonMagicNumberAnalyzer(ast.NodeVisitor):
     """Analyzes Python AST to find numeric literals."""
@@ -64,7 +66,23 @@ class PythonMagicNumberAnalyzer(ast.NodeVisitor):
             # A keyword argument is judged in the context of its call: enumerate(items, start=1)
             if isinstance(parent, ast.keyword):
                 parent = self.parent_map.get(parent)
+            parent = self._definition_for_arithmetic(node, parent)
             line_number = node.lineno if hasattr(node, "lineno") else 0
             self.numeric_literals.append((node, parent, node.value, line_number))
 
         self.generic_visit(node)
+
+    def _definition_for_arithmetic(
+        self, node: ast.Constant, parent: ast.AST | None
+    ) -> ast.AST | None:
+        """Return the constant definition a purely arithmetic expression is the value of, if any.
+
+        WEEK_IN_SECONDS = 7 * 24 * 60 * 60 is a constant definition just like HOUR = 3600;
+        anything else keeps its immediate parent.
+        """
+        ancestor = parent
+        while isinstance(ancestor, (ast.BinOp, ast.UnaryOp)):
+            ancestor = self.parent_map.get(ancestor)
+        if ancestor is not parent and is_constant_definition(node, ancestor):
+            return ancestor
+        return parent
